@@ -29,8 +29,8 @@ ASSUMPTIONS = [
 def _mat(case):
     if "W" in case:
         return np.array([[float(fr(x)) for x in row] for row in case["W"]], dtype=float)
-    dt = float if case.get("dtype") == "float" else int
-    return np.array(case["A"], dtype=dt)
+    from props.gcommon import DTYPES
+    return np.array(case["A"], dtype=DTYPES.get(case.get("dtype", "int")))
 
 
 # --------------------------------------------------------------------------- oracle pieces
@@ -204,7 +204,7 @@ def _run_exh(acc, job):
     for k, (code, P) in enumerate(pdag_codes(job["p"])):
         if k % job["nshards"] != job["shard"]:
             continue
-        case = {"sub": "pdag_exh", "A": G.lists_from_rows(P), "dtype": "float" if code % 2 else "int", "all_triples": True}
+        case = {"sub": "pdag_exh", "A": G.lists_from_rows(P), "dtype": ["int", "float", "uint8", "bool", "int32", "float32"][code % 6], "all_triples": True}
         try:
             lab = check(case)
             acc.record(case, lab, _nontrivial(case, lab), by_construction=True, sample=(code % 997 == 1))
@@ -237,10 +237,10 @@ def _hyp_case(draw):
     kind = draw(st.sampled_from(["pdag", "pdag", "embedded", "weighted", "faithless", "weighted_embedded"]))
     if kind == "pdag":
         A = draw(S.pdag(2, 7, weights=(3, 2, 2)))
-        case = {"A": A, "dtype": draw(st.sampled_from(["int", "float"]))}
+        case = {"A": A, "dtype": draw(st.sampled_from(["int", "float", "uint8", "bool", "float32"]))}
     elif kind == "embedded":
         A = draw(S.embedded(draw(S.pdag(2, 6, weights=(3, 2, 2)))))
-        case = {"A": A, "dtype": draw(st.sampled_from(["int", "float"]))}
+        case = {"A": A, "dtype": draw(st.sampled_from(["int", "float", "uint8", "bool", "float32"]))}
     elif kind == "weighted":
         W, cls = draw(S.weighted_dag(2, 8))
         case = {"W": W}
